@@ -14,6 +14,7 @@ def dispatch (p : String) (inp obs : Json) : Drv.Res :=
   | "C09" => Drv.c09 inp obs
   | "C07" => Drv.c07 inp obs
   | "C10" => Drv.c10 inp obs
+  | "C11" => Drv.c11 inp obs
   | "C17" => Drv.c17 inp obs
   | "C20" => Drv.c20 inp obs
   | "C03" => Drv.c03 inp obs
